@@ -524,7 +524,21 @@ fn build(p: &P) -> (Tree, Vec<Flow>) {
         match p.pool {
             0 => vec![vec![a("range", &format!("{base}.89-91"))]],
             1 => (89..=91).map(|x| vec![a("ip", &format!("{base}.{x}"))]).collect(),
-            _ => vec![vec![a("range", &format!("{base}.89-90"))], vec![a("ip", &format!("{base}.91"))]],
+            2 => vec![vec![a("range", &format!("{base}.89-90"))], vec![a("ip", &format!("{base}.91"))]],
+            // the same three addresses, the middle one declared last (it joins two free ranges)
+            3 => vec![
+                vec![a("ip", &format!("{base}.89"))],
+                vec![a("range", &format!("{base}.91-91"))],
+                vec![a("ip", &format!("{base}.90"))],
+            ],
+            // descending
+            4 => (89..=91).rev().map(|x| vec![a("ip", &format!("{base}.{x}"))]).collect(),
+            // a larger pool whose gap is filled last: .87-88, .92-93, then .89-91
+            _ => vec![
+                vec![a("range", &format!("{base}.87-88"))],
+                vec![a("range", &format!("{base}.92-93"))],
+                vec![a("range", &format!("{base}.89-91"))],
+            ],
         }
     };
     let mut nets = vec![TNet {
@@ -863,6 +877,20 @@ fn alpha(tier: &str, part: &str) -> Alpha {
             ports: vec![0],
             ..all
         },
+        // every spelling and order of the address pool, the rest pinned
+        (RUN_POOLS, _) => Alpha {
+            places: vec![0, 1],
+            pools: vec![0, 1, 2, 3, 4, 5],
+            wires: vec![0, 2],
+            protos: vec![0],
+            msgs: vec![0],
+            names: vec![0],
+            caps: vec![1],
+            cnts: vec![0],
+            sips: vec![false, true],
+            ports: vec![0],
+            ..all
+        },
         // senders whose shared network is listed second
         ("run-second-network", _) => Alpha {
             places: vec![5],
@@ -1197,6 +1225,7 @@ fn reject_run(sp: &RejectSpace, i: u64) -> CaseOutcome {
 const RUN_DEFAULT: &str = "run-default";
 const RUN_SECOND: &str = "run-second-network";
 const RUN_ARP: &str = "run-arp-preconfigured";
+const RUN_POOLS: &str = "run-address-pools";
 const TIMEOUT: Duration = Duration::from_secs(10);
 
 pub struct RunSc {
@@ -1464,7 +1493,7 @@ pub fn run(report: &mut Report, tier: &str) {
 
     // Part 3a
     let nondet = Mutex::new(vec![]);
-    for part in [RUN_DEFAULT, RUN_SECOND] {
+    for part in [RUN_DEFAULT, RUN_POOLS, RUN_SECOND] {
         let a3 = alpha(tier, part);
         report.set(&format!("{part}_alphabet"), a3.describe());
         let ts = trees(&a3);
@@ -1573,8 +1602,8 @@ pub fn replay(w: &Value, tier: &str) -> String {
             out.push('\n');
             out.push_str(&render(reject_run(&sp, i)));
         }
-        RUN_DEFAULT | RUN_SECOND | RUN_ARP => {
-            let part: &'static str = [RUN_DEFAULT, RUN_SECOND, RUN_ARP].into_iter().find(|x| *x == part).unwrap();
+        RUN_DEFAULT | RUN_SECOND | RUN_ARP | RUN_POOLS => {
+            let part: &'static str = [RUN_DEFAULT, RUN_SECOND, RUN_ARP, RUN_POOLS].into_iter().find(|x| *x == part).unwrap();
             let ts = trees(&alpha(tier, part));
             if i >= ts.len() as u64 {
                 return format!("{out}index out of range for tier {tier}");
